@@ -19,6 +19,7 @@ from .common import estimator_classes, reachable_functions, resolve_call
 from .pairing_rules import check_scatter, check_retpair, check_tuple_scatter, check_coindex
 
 RULES = {
+    "C04.g": "a batch processed in blocks is covered exactly once: in `for b in range(start, n, step)` the slice of rows [b : b + L] has L == step",
     "C04.a": "gather/scatter pairing: what is gathered with mask m is scattered back through the same value of m (def-use signatures)",
     "C04.b": "predict-time purity: no store to self.* and no global-stream draw reachable from predict/transform/decision_function/predict_proba/score",
     "C04.c": "clone_with_fitted_parameters only installs copies (recursive clone or deepcopy), never the original object",
@@ -372,6 +373,62 @@ def check_e(ck, repo):
     return n
 
 
+def check_blocks(ck, repo):
+    """C04.g: a batch cut into blocks is covered exactly.  In `for b in range(start, n, step)` a slice
+    `[b : b + L]` (or `[b : min(b + L, n)]`) of the rows has L == step: a shorter slice leaves rows
+    unprocessed (they keep their initial value), a longer one processes rows twice - either way the
+    output for a row depends on its position in the batch."""
+    from engine import norm as _norm
+
+    from .sem import ctext
+
+    def canon(t):
+        try:
+            return ctext(t)
+        except Exception:
+            return t.replace(" ", "")
+
+    n = 0
+    for fi in repo.all_functions.values():
+        if not fi.module.relpath.startswith("mlinsights/"):
+            continue
+        for l in own_nodes(fi.node):
+            if not (isinstance(l, ast.For) and isinstance(l.target, ast.Name) and isinstance(l.iter, ast.Call) and src_of(l.iter.func) == "range" and len(l.iter.args) == 3):
+                continue
+            b, step = l.target.id, src_of(l.iter.args[2])
+            for sl in ast.walk(l):
+                if not (isinstance(sl, ast.Slice) and sl.lower is not None and sl.upper is not None and sl.step is None and src_of(sl.lower) == b):
+                    continue
+                up = sl.upper
+                if isinstance(up, ast.Call) and src_of(up.func) in ("min", "numpy.minimum") and up.args:
+                    up = next((a for a in up.args if b in {x.id for x in ast.walk(a) if isinstance(x, ast.Name)}), up.args[0])
+                if not (isinstance(up, ast.BinOp) and isinstance(up.op, (ast.Add, ast.Sub)) and b in {x.id for x in ast.walk(up) if isinstance(x, ast.Name)}):
+                    continue
+                n += 1
+                from engine.affine import lin, LinErr
+
+                try:
+                    diff = lin(up) - lin(ast.Name(id=b, ctx=ast.Load())) - lin(l.iter.args[2])
+                except LinErr:
+                    ck.unknown("C04.g", fi, stmt_of_(sl), f"the length of the block [{b} : {src_of(up)}] is not an affine expression this rule evaluates")
+                    continue
+                exact = not diff.t and diff.c == 0
+                const = not diff.t
+                if not exact and not const:
+                    ck.unknown("C04.g", fi, stmt_of_(sl), f"the block [{b} : {src_of(up)}] and the stride {step} differ by an expression that is not a constant")
+                    continue
+                ck.verdict(exact, "C04.g", fi, stmt_of_(sl), f"blocks [{b} : {src_of(up)}] follow each other every {step} rows", f"the loop advances by {step} rows but the block is [{b} : {src_of(sl.upper)}], {abs(diff.c)} row(s) {'shorter' if diff.c < 0 else 'longer'} than the stride: " + ("the last rows of every block are never processed and keep their initial value" if diff.c < 0 else "rows are processed twice") + ", so what a row gets depends on its position in the batch")
+    ck.holds("C04.g", None, f"{n} block loops", "every block loop covers its rows exactly once", file="mlinsights", function="*", line=1, nontrivial=False)
+    return n
+
+
+def stmt_of_(n):
+    p = n
+    while p is not None and not isinstance(p, ast.stmt):
+        p = getattr(p, "_parent", None)
+    return p if p is not None else n
+
+
 def run(ck):
     repo = ck.repo
     for k, v in RULES.items():
@@ -385,6 +442,12 @@ def run(ck):
         ck.unknown("C04.d", None, "Cython parser", f"cannot import Cython's parser: {e}", file="-", function="-", line=0)
         nd = 0
     ck.extra["rowwise_functions"] = check_e(ck, repo)
+    ck.extra["block_loops"] = check_blocks(ck, repo)
+    from .sem import share_clauses
+
+    share_clauses(ck, "c15", {
+        "C15.c": ("C04.h", "a transfer with copy_estimator holds its own copy of the wrapped model whatever the other options: its outputs do not change when the source model is refitted, and equal those of its pickled or cloned copies"),
+    }, keep=lambda o: "copy" in (o.statement or "") + (o.detail or ""))
     ck.extra["pickling_classes"] = check_f(ck, repo)
     ck.extra["pairing_instances"] = na
     ck.extra["exemptions"] = {f"{k[0]}.{k[1]}": v for k, v in B_EXEMPT_ATTR.items()}
